@@ -67,6 +67,11 @@ def configs(tier, seed):
                           {"aw": 0, "feat": [], "sparse": False, "name": None, "addr": 0xfc}]})
     # no subordinate at all
     cfgs.append({"aw": 3, "dw": 8, "g": 8, "feat": ALLF, "align": 0, "subs": []})
+    # many windows: every number of subordinates from 5 to 17 (fan-in reductions of every shape)
+    for nsub in list(range(5, 18)) + ([33] if tier == "thorough" else []):
+        cfgs.append({"aw": 8, "dw": 32, "g": 8, "feat": ["err", "stall"], "align": 0,
+                     "subs": [{"aw": i % 2, "feat": (["err"] if i % 3 == 0 else []) + (["stall"] if i % 5 == 0 else []), "sparse": False,
+                               "name": None if i % 4 == 1 else f"m{i}", "addr": None} for i in range(nsub)]})
     # sparse windows (selection only): subordinate data width == its granularity, narrower than the decoder
     for dw, g, sdw in [(32, 8, 8), (16, 8, 8), (64, 16, 16), (32, 16, 8), (32, 32, 8), (16, 16, 16)]:
         cfgs.append({"aw": 5, "dw": dw, "g": g, "feat": ["stall"], "align": 0,
